@@ -189,20 +189,30 @@ Rect2Gap2(a, b) == Sq(AxGap(a, b, 1)) + Sq(AxGap(a, b, 2))
 VARIABLES cfg, pc, q, ans, dval, exit
 ovars == <<cfg, pc, q, ans, dval, exit>>
 
-MkCfg(id, proc, api, a, ra, pa, b, rb, pb, poly) ==
-  [id |-> id, proc |-> proc, api |-> api, a |-> a, ra |-> ra, pa |-> pa, b |-> b, rb |-> rb, pb |-> pb, poly |-> poly]
+(* The pose of a solid is its GLOBAL orientation = parentOrientation * local orientation (the    *)
+(* object's own yaw / pitch / roll are relative to its parent frame).  A configuration gives the  *)
+(* (parent, local) pair of each solid (qa, la) / (qb, lb); they are composed with the exact       *)
+(* lattice rotations, and everything below -- the solids, and in particular whether a box is      *)
+(* "planar" (lies flat: no global pitch / roll) -- uses the composed rotations ra / rb only.      *)
+MatMul(A, B) == [r \in 1..3 |-> [c \in 1..3 |-> A[r][1] * B[1][c] + A[r][2] * B[2][c] + A[r][3] * B[3][c]]]
+SameMat(A, B) == \A r \in 1..3, c \in 1..3 : A[r][c] = B[r][c]
+ComposeT == [qr \in (1..NR) \X (1..NR) |-> CHOOSE g \in 1..NR : SameMat(Rots[g], MatMul(Rots[qr[1]], Rots[qr[2]]))]
+MkCfg(id, proc, api, a, qa, la, pa, b, qb, lb, pb, poly) ==
+  [id |-> id, proc |-> proc, api |-> api, a |-> a, qa |-> qa, la |-> la, ra |-> ComposeT[<<qa, la>>], pa |-> pa,
+   b |-> b, qb |-> qb, lb |-> lb, rb |-> ComposeT[<<qb, lb>>], pb |-> pb, poly |-> poly]
 
 OvInit ==
   /\ pc = "measure" /\ q = <<>> /\ ans = FALSE /\ dval = -1 /\ exit = "-"
   /\ \/ /\ Mode = "batch"
         /\ \E k \in 1..Len(Cases) :
-             cfg = MkCfg(Cases[k].id, Cases[k].proc, Cases[k].api, Cases[k].a, Cases[k].ra, Cases[k].pa,
-                         Cases[k].b, Cases[k].rb, Cases[k].pb, Cases[k].poly)
+             cfg = MkCfg(Cases[k].id, Cases[k].proc, Cases[k].api, Cases[k].a, Cases[k].qa, Cases[k].ra, Cases[k].pa,
+                         Cases[k].b, Cases[k].qb, Cases[k].rb, Cases[k].pb, Cases[k].poly)
      \/ /\ Mode = "universe"
         /\ \E u \in 1..Len(Univ) :
-             \E a \in Range(Univ[u].sa), ra \in Range(Univ[u].sra), b \in Range(Univ[u].sb), rb \in Range(Univ[u].srb),
+             \E a \in Range(Univ[u].sa), qa \in Range(Univ[u].sqa), ra \in Range(Univ[u].sra),
+                b \in Range(Univ[u].sb), qb \in Range(Univ[u].sqb), rb \in Range(Univ[u].srb),
                 dx \in Range(Univ[u].dx), dy \in Range(Univ[u].dy), dz \in Range(Univ[u].dz) :
-               cfg = MkCfg(0, Univ[u].proc, Univ[u].api, a, ra, Univ[u].pa, b, rb,
+               cfg = MkCfg(0, Univ[u].proc, Univ[u].api, a, qa, ra, Univ[u].pa, b, qb, rb,
                            AddV(Univ[u].pa, <<dx, dy, dz>>), Univ[u].poly)
 
 \* ---- measured exact quantities -------------------------------------------------
